@@ -675,7 +675,7 @@ pub struct VecCase {
 
 pub fn gen_vec(t: &mut Tape) -> VecCase {
     let n = t.usize_in(0, 9);
-    let mut g = |t: &mut Tape| -> Vec<f64> {
+    let g = |t: &mut Tape| -> Vec<f64> {
         (0..n)
             .map(|_| match t.weighted(&[2, 5, 1]) {
                 0 => t.int(-3, 3) as f64,
@@ -1051,9 +1051,9 @@ pub fn run(run: &mut PropRun) {
         run.absorb(r);
     }
     // (d) generated
-    run.suite(Suite { name: "ops", cases: run.cfg.n(30_000, 2_000_000), tape_len: 400, gen: &|t| gen_ops(t, 7), check: &check_ops });
-    run.suite(Suite { name: "ops-large", cases: run.cfg.n(1_500, 60_000), tape_len: 6000, gen: &|t| gen_ops(t, 40), check: &check_ops });
-    run.suite(Suite { name: "raw", cases: run.cfg.n(60_000, 3_000_000), tape_len: 200, gen: &gen_raw, check: &check_raw });
+    run.suite(Suite { name: "ops", cases: run.cfg.n(150_000, 3_000_000), tape_len: 400, gen: &|t| gen_ops(t, 7), check: &check_ops });
+    run.suite(Suite { name: "ops-large", cases: run.cfg.n(6_000, 100_000), tape_len: 6000, gen: &|t| gen_ops(t, 40), check: &check_ops });
+    run.suite(Suite { name: "raw", cases: run.cfg.n(200_000, 5_000_000), tape_len: 200, gen: &gen_raw, check: &check_raw });
     run.suite(Suite {
         name: "triplets",
         cases: run.cfg.n(20_000, 1_000_000),
